@@ -306,6 +306,10 @@ func (ctx *parseContext) readNodes() ([]Node, error) {
 		}
 		requireNewLine = true
 
+		// Declarations are checked against the nesting level they are made
+		// at, the closing brace glued to the declaration does not count yet.
+		declNesting := ctx.nesting
+
 		shouldStop := false
 
 		// name arg0 arg1 {
@@ -323,7 +327,7 @@ func (ctx *parseContext) readNodes() ([]Node, error) {
 		}
 
 		if node.Macro {
-			if ctx.nesting != 0 {
+			if declNesting != 0 {
 				return res, ctx.Err("macro declarations are only allowed at top-level")
 			}
 
@@ -335,10 +339,13 @@ func (ctx *parseContext) readNodes() ([]Node, error) {
 			// = sign is removed by parseAsMacro.
 			// It also cuts $( and ) from name.
 			ctx.macros[node.Name] = node.Args
+			if shouldStop {
+				break
+			}
 			continue
 		}
 		if node.Snippet {
-			if ctx.nesting != 0 {
+			if declNesting != 0 {
 				return res, ctx.Err("snippet declarations are only allowed at top-level")
 			}
 			if len(node.Args) != 0 {
@@ -346,6 +353,9 @@ func (ctx *parseContext) readNodes() ([]Node, error) {
 			}
 
 			ctx.snippets[node.Name] = node.Children
+			if shouldStop {
+				break
+			}
 			continue
 		}
 
